@@ -9,9 +9,9 @@ import exact as ex
 from exact import Expect, Fraction as _F
 
 ORDER = {'Mean': 1, 'Variance': 2, 'MeanWithError': 2, 'Skewness': 3, 'Kurtosis': 4,
-         'WeightedMeanWithError': 2, 'Moments4': 4, 'M4': 4, 'M5': 5, 'M6': 6, 'M8': 8, 'M10': 10}
+         'WeightedMeanWithError': 2, 'Moments4': 4, 'M4': 4, 'M5': 5, 'M6': 6, 'M7': 7, 'M8': 8, 'M9': 9, 'M10': 10}
 KAPPA_MAX = 10 ** 12
-MOMENT_TYPES = ('Moments4', 'M4', 'M5', 'M6', 'M8', 'M10')
+MOMENT_TYPES = ('Moments4', 'M4', 'M5', 'M6', 'M7', 'M8', 'M9', 'M10')
 
 
 def base_type(typ):
